@@ -22,7 +22,7 @@ type Summary struct {
 var known = map[string]bool{
 	// amd64
 	"MOVQ": true, "MULQ": true, "IMUL3Q": true, "ADDQ": true, "ADCQ": true,
-	"ANDQ": true, "SHLQ": true, "SHRQ": true, "RET": true,
+	"ANDQ": true, "SHLQ": true, "SHRQ": true, "RET": true, "LEAQ": true,
 	// arm64
 	"MOVD": true, "LDP": true, "STP": true, "AND": true, "ADD": true,
 	"LSR": true, "MADD": true,
@@ -65,7 +65,33 @@ func Summarize(f *Func) *Summary {
 		// memory / FP operands
 		for k, op := range in.Ops {
 			switch op.Kind {
+			case MemIdx:
+				// base + index*scale + off as arithmetic on integers (LEAQ); never an address into memory
+				if in.Mnemonic != "LEAQ" || k != 0 || n != 2 || in.Ops[1].Kind != Reg {
+					und(in, "scaled-index operand outside LEAQ arithmetic")
+					continue
+				}
+				if _, isPtr := bind[op.Reg]; isPtr {
+					und(in, "LEAQ on a register that holds a pointer argument (address arithmetic)")
+				}
+				if _, isPtr := bind[op.Reg2]; isPtr {
+					und(in, "LEAQ on a register that holds a pointer argument (address arithmetic)")
+				}
 			case Mem:
+				if op.Reg == "SP" {
+					// a slot of the function's own frame: private scratch, no effect outside the body
+					if op.Off%8 != 0 || op.Off < 0 || op.Off+8 > f.FrameSize {
+						und(in, "stack slot outside the declared frame")
+					}
+					if in.Mnemonic == "LEAQ" {
+						und(in, "address of a stack slot taken")
+					}
+					continue
+				}
+				if in.Mnemonic == "LEAQ" {
+					und(in, "LEAQ of a memory operand (address arithmetic on a pointer)")
+					continue
+				}
 				p, ok := bind[op.Reg]
 				if !ok {
 					und(in, "memory operand through a register that does not hold a pointer argument")
